@@ -46,7 +46,11 @@ def run(ctx):
             if v.local_ty(i).endswith("cosmwasm_std::Uint128"):
                 amount = i
         msgs = [b for b, i, l, d in message_creations(v, model)]
-        sent = lambda os_: bool(os_) and any(o.kind == "call" and o.a.endswith("Iterator>::sum") for o in os_)
+        info_p = next((i for i in range(1, v.argc + 1) if v.local_ty(i).endswith("cosmwasm_std::MessageInfo")), None)
+        # what was sent: derived from info.funds, summed by an iterator or accumulated in a loop
+        sent = lambda os_: bool(os_) and (any(o.kind == "call" and o.a.endswith("Iterator>::sum") for o in os_) or
+                                          any(o.kind == "param" and o.a == info_p and tuple(o.proj[:1]) == ("funds",) for o in os_)) \
+            and not any(o.kind == "param" and o.a == amount for o in os_)
         decl = lambda os_: bool(os_) and all(o.kind == "param" and o.a == amount and not o.proj for o in os_)
         # native branch: restrict to NativeToken vault asset
         from ..dataflow import variant_excluded_edges, region_walk, cond_at, switch_conds, cmp_truth, FLIP, REGIONS
@@ -57,9 +61,10 @@ def run(ctx):
             if c.kind == "cmp":
                 at = cond_at(v, c)
                 oa, ob = v.origins_of_operand(c.a, at=at), v.origins_of_operand(c.b, at=at)
-                if sent(oa) and decl(ob):
+                ta, tb = v.origins_of_operand(c.a, at=at, taint=True), v.origins_of_operand(c.b, at=at, taint=True)
+                if sent(ta) and decl(ob):
                     tracked[b] = (c, "fwd")
-                elif sent(ob) and decl(oa):
+                elif sent(tb) and decl(oa):
                     tracked[b] = (c, "rev")
         tab = {}
         for r in REGIONS:
